@@ -73,7 +73,7 @@ def guess_near(rng, v, rel):
 
 
 def build(rng, kind, typ, nf, form, ptol=None, etol=None, limit=None, bad=False, merr=False):
-    n = 1 if kind in ('extra1', 'repeat', 'repeatv') else 2
+    n = 1 if kind in ('extra1', 'repeat', 'repeatv', 'spread') else 2
     if typ in ('T16', 'U16'):
         return None
     sc = Sc(rng, typ, n, n, nf, form=form).begin()
@@ -136,6 +136,20 @@ def build(rng, kind, typ, nf, form, ptol=None, etol=None, limit=None, bad=False,
             g = -1.0 + complex(rng.gauss(0, sigma), rng.gauss(0, sigma)) * 0.7
             hc = sc.correlated(calsim.SHORT, sigma, g)
             sc.std1(1, hc, g)
+    elif kind == 'spread':
+        # two unknown reflects whose handles are 8 or 16 apart (other parameters of the vnacal_t lie between them), the standard with
+        # the higher handle added first
+        for code in (calsim.SHORT, calsim.OPEN, calsim.MATCH):
+            sc.add_reflect(1, code)
+        g1 = complex(rng.uniform(-0.6, 0.6), rng.uniform(-0.6, 0.6))
+        g2 = complex(rng.uniform(-0.6, 0.6), rng.uniform(0.2, 0.6)) * (-1 if rng.random() < 0.5 else 1)
+        u1 = sc.unknown(guess_near(rng, g1, 0.2), g1)
+        for _ in range(rng.choice([6, 14])):
+            sc.scalar(calsim.rc(rng, 0.5) + 2.0)
+        u2 = sc.unknown(guess_near(rng, g2, 0.2), g2)
+        assert (u2 - u1) % 8 == 0
+        sc.std1(1, u2, g2)
+        sc.std1(1, u1, g1)
     elif kind == 'repeatv':
         # the same, around a frequency-dependent kit model: an offset short whose reflection turns with frequency, given as a vector
         # parameter on a wider grid that contains the calibration frequencies
@@ -207,7 +221,7 @@ def run(chk):
     reps = (1 if quick else 10) * (3 if broken else 1)
     scs = []
     for _ in range(reps):
-        for kind in ('extra1', 'extra2', 'trl', 'trla', 'solr', 'repeat', 'repeatv'):
+        for kind in ('extra1', 'extra2', 'trl', 'trla', 'solr', 'repeat', 'repeatv', 'spread'):
             for typ in calsim.TYPES:
                 # two-port self-calibration recipes (TRL, unknown through) are posed for the 8- and 10-term models; the 12-/14-term
                 # models with their per-column systems are not determined by them
